@@ -29,6 +29,20 @@ def cases_b(thorough):
                 yield {"alpha": alpha, "seq": s, "cmd": cmd}
 
 
+    # every order of the dry-run letter among up to two (thorough: three) other option tokens, with and without a target directory:
+    # the dry run is a property of the option SET, not of where 'n' stands
+    import itertools
+    toks = ("f", "i", "q", "q0", "q1", "q2", "v")
+    for letter in ("x", "e", "-x"):
+        for k in range(0, 4 if thorough else 3):
+            for sub in itertools.combinations(toks, k):
+                for perm in itertools.permutations(sub + ("n",)):
+                    for w in ("", "w=D", "wD"):
+                        cmd = letter + "".join(perm) + w
+                        for s in seqs(22, 1):
+                            yield {"alpha": "A1", "seq": s, "cmd": cmd}
+
+
 def cases_c(thorough):
     for pre in ("inside", "outside", "dangling"):
         for s in seqs(22, 2):
@@ -54,7 +68,7 @@ def run(ctx):
                         "the run is made as root so that nothing is protected by permissions; the canary tree next to the extraction root and the listing of their common parent are compared before and after"]
     return ctx.finish(
         rule="'A1': all sequences up to length 3 (thorough 4) over 22 archive entries with hostile names (.., absolute, backslash and 0xFF separated, NUL-containing, through link names; read-only directory; safe and two dangerous links) under x, and up to length 2 (3) under xf, xq, xfi, xfw=D, xfiw=D, eq1; "
-             "'A2': ALL sequences up to length 5 over 10 link-interplay entries (three same-named safe links, dangerous links of path length 1/3/4, files through link names); 'B': every archive up to length 2 (3) under l, v, t, p, xn, en, xfn, pq: no successful mutating call; "
+             "'A2': ALL sequences up to length 5 over 10 link-interplay entries (three same-named safe links, dangerous links of path length 1/3/4, files through link names); 'B': every archive up to length 2 (3) under l, v, t, p, xn, en, xfn, pq, and every one-entry archive under every ordering of 'n' among up to 2 (3) of the option tokens f,i,q,q0,q1,q2,v with and without w=D: no successful mutating call; "
              "'D': w=D with same-named directories already in the working directory (the region is then root/D); 'C': pre-existing link (to a file inside, outside, dangling) at the final component of output files. Oracle at every prefix of the operation log: every successful mutating call resolves inside the root; once a dangerous link exists only unlink/symlink follow; canary tree and parent listing unchanged. non-trivial = runs with at least one successful mutating call (read-only commands: all)",
         replay_fn=lambda rep: cliprop.replay_case(rep))
 
